@@ -168,8 +168,28 @@ pub fn repo_root() -> std::path::PathBuf {
 /// anything else that could be shared between workers is listed, so that a new unhooked primitive shows up in the
 /// evidence instead of silently narrowing what the explorer can see. never a verdict.
 pub fn scan_shared_state() -> String {
-    let hooked = ["float_cache_policy.rs", "response_sink.rs", "response_output_policy.rs", "compass_app.rs"];
-    let needles = ["unsafe ", "unsafe{", "static mut", "Atomic", "RwLock", "Mutex", "RefCell", "UnsafeCell", "thread_local", "lazy_static", "OnceCell", "OnceLock", "Condvar", "mpsc::"];
+    let hooked = [
+        "float_cache_policy.rs",
+        "response_sink.rs",
+        "response_output_policy.rs",
+        "compass_app.rs",
+    ];
+    let needles = [
+        "unsafe ",
+        "unsafe{",
+        "static mut",
+        "Atomic",
+        "RwLock",
+        "Mutex",
+        "RefCell",
+        "UnsafeCell",
+        "thread_local",
+        "lazy_static",
+        "OnceCell",
+        "OnceLock",
+        "Condvar",
+        "mpsc::",
+    ];
     let mut hooked_sites = 0usize;
     let mut bypass: Vec<String> = vec![];
     let mut other: Vec<String> = vec![];
@@ -189,12 +209,22 @@ pub fn scan_shared_state() -> String {
         }
     }
     let mut files = vec![];
-    for krate in ["routee-compass-core", "routee-compass", "routee-compass-powertrain"] {
-        walk(&repo_root().join("rust").join(krate).join("src"), &mut files);
+    for krate in [
+        "routee-compass-core",
+        "routee-compass",
+        "routee-compass-powertrain",
+    ] {
+        walk(
+            &repo_root().join("rust").join(krate).join("src"),
+            &mut files,
+        );
     }
     files.sort();
     for f in files.iter() {
-        let name = f.file_name().map(|n| n.to_string_lossy().to_string()).unwrap_or_default();
+        let name = f
+            .file_name()
+            .map(|n| n.to_string_lossy().to_string())
+            .unwrap_or_default();
         if name == "verif_sync.rs" {
             continue;
         }
@@ -204,13 +234,22 @@ pub fn scan_shared_state() -> String {
             if t.starts_with("//") {
                 continue;
             }
-            if !needles.iter().any(|n| line.contains(n)) && !(t.starts_with("static ") || t.starts_with("pub static ")) {
+            if !needles.iter().any(|n| line.contains(n))
+                && !(t.starts_with("static ") || t.starts_with("pub static "))
+            {
                 continue;
             }
-            let site = format!("{}:{}", f.strip_prefix(repo_root()).unwrap_or(f).display(), ln + 1);
+            let site = format!(
+                "{}:{}",
+                f.strip_prefix(repo_root()).unwrap_or(f).display(),
+                ln + 1
+            );
             if hooked.contains(&name.as_str()) {
                 // a fully qualified std primitive inside a hooked file bypasses the twin import
-                if line.contains("std::sync::Mutex") && !t.starts_with("use ") && !t.starts_with("sync::") {
+                if line.contains("std::sync::Mutex")
+                    && !t.starts_with("use ")
+                    && !t.starts_with("sync::")
+                {
                     bypass.push(site);
                 } else {
                     hooked_sites += 1;
@@ -278,7 +317,10 @@ pub struct RunInfo {
 /// schedule-controlled) calls into the application go through this: a change that makes the real worker pool
 /// deadlock would otherwise hang the check. after a None the caller records the violation and winds the run up
 /// (the stuck threads hold locks, nothing further can be trusted); the process exit kills them.
-pub fn with_deadline<T: Send + 'static>(secs: u64, f: impl FnOnce() -> T + Send + 'static) -> Option<T> {
+pub fn with_deadline<T: Send + 'static>(
+    secs: u64,
+    f: impl FnOnce() -> T + Send + 'static,
+) -> Option<T> {
     let (tx, rx) = std::sync::mpsc::channel();
     std::thread::spawn(move || {
         let _ = tx.send(f());
@@ -288,7 +330,6 @@ pub fn with_deadline<T: Send + 'static>(secs: u64, f: impl FnOnce() -> T + Send 
 
 impl RunInfo {
     pub fn new(property: &'static str, tier: Tier) -> RunInfo {
-
         let seed = std::env::var("VERIF_SEED")
             .ok()
             .and_then(|s| s.parse::<u64>().ok())
@@ -304,7 +345,13 @@ impl RunInfo {
 
 fn sanitize(sig: &str) -> String {
     sig.chars()
-        .map(|c| if c.is_ascii_alphanumeric() || c == '.' || c == '-' || c == '_' { c } else { '_' })
+        .map(|c| {
+            if c.is_ascii_alphanumeric() || c == '.' || c == '-' || c == '_' {
+                c
+            } else {
+                '_'
+            }
+        })
         .collect()
 }
 
@@ -423,7 +470,11 @@ pub fn finish(
             let _ = f.write_all(b"\n");
         }
         Err(e) => {
-            println!("MACHINERY-ERROR cannot write evidence {}: {}", ev_path.display(), e);
+            println!(
+                "MACHINERY-ERROR cannot write evidence {}: {}",
+                ev_path.display(),
+                e
+            );
             return 2;
         }
     }
@@ -507,10 +558,21 @@ pub fn canon_json(v: &serde_json::Value) -> String {
         serde_json::Value::Object(m) => {
             let mut keys: Vec<&String> = m.keys().collect();
             keys.sort();
-            format!("{{{}}}", keys.iter().map(|k| format!("{:?}:{}", k, canon_json(&m[*k]))).collect::<Vec<_>>().join(","))
+            format!(
+                "{{{}}}",
+                keys.iter()
+                    .map(|k| format!("{:?}:{}", k, canon_json(&m[*k])))
+                    .collect::<Vec<_>>()
+                    .join(",")
+            )
         }
-        serde_json::Value::Array(a) => format!("[{}]", a.iter().map(canon_json).collect::<Vec<_>>().join(",")),
-        serde_json::Value::Number(n) if n.is_f64() => format!("{:.11e}", n.as_f64().unwrap_or(f64::NAN)),
+        serde_json::Value::Array(a) => format!(
+            "[{}]",
+            a.iter().map(canon_json).collect::<Vec<_>>().join(",")
+        ),
+        serde_json::Value::Number(n) if n.is_f64() => {
+            format!("{:.11e}", n.as_f64().unwrap_or(f64::NAN))
+        }
         other => other.to_string(),
     }
 }
